@@ -86,9 +86,10 @@ theorem clientRecvMany_arm (cfg : Cfg) (sid : Nat) : ∀ (ds : List Bytes) (st :
   | [], _, h => h
   | d :: ds, st, h => by
     simp only [clientRecvMany]
+    apply clientRecvMany_arm cfg sid ds
     split
     · exact h
-    · apply clientRecvMany_arm cfg sid ds
+    · unfold touchClient
       split
       · exact h
       · rename_i s hs
@@ -270,8 +271,9 @@ theorem clientRecvMany_same (cfg : Cfg) (x : Nat) : ∀ (ds : List Bytes) (st : 
   | d :: ds, st, sid, s, hs => by
     simp only [clientRecvMany]
     split
-    · exact ⟨s, hs, Same.rfl' s⟩
-    · split
+    · exact clientRecvMany_same cfg x ds st sid s hs
+    · unfold touchClient
+      split
       · exact clientRecvMany_same cfg x ds st sid s hs
       · rename_i sx hx
         by_cases e : sid = x
